@@ -121,7 +121,8 @@ class ByteArray(SimpleModel):
         joiner = type(value)()
         try:
             return (b64decode(joiner.join(value)),)
-        except TypeError:
+        except (TypeError, ValueError):
+            # binascii.Error is a ValueError
             raise ValidationError(value)
 
     @classmethod
@@ -142,7 +143,7 @@ class ByteArray(SimpleModel):
             else:
                 return (urlsafe_b64decode(value),)
 
-        except TypeError as e:
+        except (TypeError, ValueError) as e:
             logger.exception(e)
 
             if len(value) < 100:
@@ -156,10 +157,15 @@ class ByteArray(SimpleModel):
 
     @classmethod
     def from_hex(cls, value):
-        # text protocols hand over the whole literal as one string
-        if isinstance(value, six.text_type):
-            return (unhexlify(value),)
-        return (unhexlify(_bytes_join(value)),)
+        try:
+            # text protocols hand over the whole literal as one string
+            if isinstance(value, six.text_type):
+                return (unhexlify(value),)
+            return (unhexlify(_bytes_join(value)),)
+
+        except (TypeError, ValueError):
+            # binascii.Error is a ValueError
+            raise ValidationError(value)
 
 
 def _default_binary_encoding(b):
